@@ -254,6 +254,50 @@ Proof.
   unfold chunk_outcome. destruct (d_low ds a id) as [so dk|e]; [|discriminate]. apply getter_mismatch. exact M.
 Qed.
 
+(* ---------- unreachable / unauthorised stores ---------- *)
+(* a low-level failure that the store's error map turns into a StoreUnavailable, on any chunk inside the window,
+   fails the load with that StoreUnavailable (never zero-filled, never flagged) *)
+Lemma unavailable_fails_load ds a id e : In (a, id) (needed ds) -> d_low ds a id = LRaise e ->
+  isinst (standard_errors (error_map (d_store ds)) e) K_StoreUnavailable = true ->
+  In (standard_errors (error_map (d_store ds)) e) (load_errors ds) /\ load_errors ds <> [] /\
+  chunk_missing ds a id = false.
+Proof.
+  intros Hin Hlo Hu.
+  assert (G : get_chunk (d_store ds) (d_low ds a id) = Raise (standard_errors (error_map (d_store ds)) e))
+    by (rewrite Hlo; reflexivity).
+  destruct (bad_or_unavailable_never_filled _ _ _ G (or_intror (or_introl Hu))) as [A B].
+  assert (R : chunk_outcome ds a id = Raise (standard_errors (error_map (d_store ds)) e)).
+  { unfold chunk_outcome. destruct vfw_getters as [G1 G2]. destruct (akind_of a); [rewrite G1|rewrite G2]; assumption. }
+  assert (X : In (standard_errors (error_map (d_store ds)) e) (load_errors ds)) by (apply load_error_iff; eauto).
+  split; [exact X|]. split; [intro E; rewrite E in X; destruct X|].
+  unfold chunk_missing. rewrite R. reflexivity.
+Qed.
+
+Definition classes_mapped_to (s : store) (k : exn) : list exn :=
+  filter (fun e => isinst (standard_errors (error_map s) e) k) all_exn.
+
+(* which low-level exceptions the S3 store reports as StoreUnavailable / as a missing chunk (translated error map) *)
+Lemma s3_classes :
+  classes_mapped_to SS3 K_StoreUnavailable =
+    [K_StoreUnavailable; K_AuthorisationFailed; K_InvalidToken; R_RequestException; R_ChunkedEncodingError;
+     R_ConnectionError; R_Timeout; R_ConnectTimeout; R_ContentDecodingError; R_HTTPError; R_InvalidHeader;
+     R_InvalidJSONError; R_InvalidURL; R_InvalidProxyURL; R_InvalidSchema; R_JSONDecodeError; R_MissingSchema;
+     R_ProxyError; R_SSLError; R_StreamConsumedError; R_TooManyRedirects; R_URLRequired; R_UnrewindableBodyError] /\
+  classes_mapped_to SS3 K_ChunkNotFound =
+    [K_ChunkNotFound; K_S3ObjectNotFound; K_S3ServerGlitch; R_ReadTimeout; R_RetryError; U_MaxRetryError] /\
+  classes_mapped_to SDict K_ChunkNotFound = [B_KeyError; B_IndexError; K_ChunkNotFound; K_S3ObjectNotFound; K_S3ServerGlitch].
+Proof. repeat split; vm_compute; reflexivity. Qed.
+
+(* FINDING C08-F5c (open): the read path of the NPY store reports NO failure as StoreUnavailable; a store-level OS error
+   (EACCES on the chunk directory, ENOTDIR, EISDIR, EIO) is absorbed as a missing chunk: zero-filled and flagged
+   data_lost instead of failing the load.  "Unreachable store => StoreUnavailable" holds for the NPY store only at
+   construction (missing directory), not per read. *)
+Lemma npy_read_unavailable_refuted :
+  classes_mapped_to SNpy K_StoreUnavailable = [] /\
+  exists e, isinst e B_OSError = true /\ e <> B_FileNotFoundError /\
+            vfw_getter AOther SNpy (LRaise e) = Ret Placeholder /\ vfw_getter AFlags SNpy (LRaise e) = Ret DefaultFill.
+Proof. split; [vm_compute; reflexivity|]. exists B_PermissionError. repeat split; try reflexivity. discriminate. Qed.
+
 (* ---------- the composed statement for a store of chunk files ---------- *)
 Section FileStore.
   Variable parse_hdr : bytes -> option hdr.
